@@ -552,7 +552,7 @@ pub fn code_distributions(run: &mut Run, tier: Tier, prop: &str) {
     run.set("code_distribution_modes_seen_per_field", json!(seen.lock().unwrap().iter().map(|(f, m)| format!("{}: mode {m}", names[*f])).collect::<Vec<_>>()));
 }
 
-fn table_reuse(run: &mut Run, tier: Tier) {
+pub fn table_reuse(run: &mut Run, tier: Tier, prop: &str) {
     let th = meter::threads();
     let nsym = tier.pick(5usize, 6);
     let subsets: Vec<Vec<u8>> = (1u32..(1 << nsym)).filter(|m| m.count_ones() >= 2).map(|m| (0..nsym as u8).filter(|b| m >> b & 1 == 1).collect()).collect();
@@ -600,9 +600,14 @@ fn table_reuse(run: &mut Run, tier: Tier) {
         input.extend(block(s2, prof % 3, 2));
         // a third block over the first alphabet again: reuse after reuse / after a new table
         input.extend(block(s1, prof / 3, 3));
-        case(a, &input, 1100, 1 << 17, &[vec![], vec![], vec![]], "table reuse, literal-only blocks");
+        // non-trivial here = a frame in which some block really reuses a table (treeless literals)
+        if let Some(w) = case_w(a, &input, 1100, 1 << 17, &[vec![], vec![], vec![]], "table reuse, literal-only blocks") {
+            if w.blocks.iter().any(|b| b.lits_type == Some(3)) {
+                a.nontrivial += 1;
+            }
+        }
     });
-    let x = merge(run, "C16", &format!("huffman_table_reuse_all_pairs_of_alphabets_up_to_{nsym}_symbols"), accs, true);
+    let x = merge(run, prop, &format!("huffman_table_reuse_all_pairs_of_alphabets_up_to_{nsym}_symbols"), accs, true);
     run.add("frames_with_a_compressed_block", x[0]);
 }
 
@@ -616,7 +621,7 @@ pub fn main(tier: Tier, replay: Option<Value>) -> i32 {
     restricted_moves(&mut run, tier);
     directed(&mut run, tier);
     code_distributions(&mut run, tier, "C16");
-    table_reuse(&mut run, tier);
+    table_reuse(&mut run, tier, "C16");
     run.set("exhaustive", false);
     run.set("rule", "a scripted Matcher replays a parse through the public trait. (a) every input over {a,b} of length 3..=12/14, cut into blocks of 4 and of 11 bytes, with EVERY valid parse of every block (all tilings by literal runs and matches of length >= 3 at every offset whose source really equals the target, incl. zero-length literal runs, overlapping matches and matches into earlier blocks; per-input cap reported); (b) 64-byte periodic inputs in blocks of 32 with every parse of <= 3/4 sequences over the move set ll in {0,1,2,5} x ml in {3,4,7,16,rest} x offset in {period, 2*period, max, 1}, which are large enough to be emitted compressed; (c) parses directed at the encoder's thresholds: sequence counts at 1,2,126..129,255,256,0x7EFF..0x7F01,0x7FFF..0x8001,43689; single-sequence blocks; all literal lengths 0; every literal-length and match-length code boundary up to a whole block; offsets 1, exactly the window, exactly n blocks back for windows of 1 KiB / 128 KiB / 8 MiB; 13 windows that are not powers of two (1025 .. 1 MiB + 1) with a match at offset = window; Huffman / raw fallback / Huffman block triples; > 1024 literals of a single byte value; (d) the Huffman table reuse decision: every ordered pair of alphabets that are subsets (>= 2 symbols) of 5/6 byte values x 9 frequency-profile pairs as three literal-only 1100-byte blocks (first alphabet, second, first again) through a matcher that reports no matches. (e) code distributions: for each of literal-length / match-length / offset codes, 2..=all usable codes (lowest and spread) x 1..=64 (100) uses per code, with and without one extra code used once, as the second block of a two-block input (decides table form and accuracy log). Oracle: no panic, this crate's decoder and libzstd return the input, the strict walker accepts, declared window >= reported window. non-trivial = parses with at least one match");
     run.sample(json!({"input": "abababab", "block": 4, "parses": [[], [[0, 2, 4]]], "meaning": "second block is one match of length 4 at offset 2 with no literals"}));
